@@ -140,7 +140,8 @@ def handleLine (st : State) (line : String) : State × String :=
       let bad := impl == "1" && !inert v
       (st, verdict (r == impl) r (if bad then ["C18"] else []) [])
     | _, _ => (st, "bad-hdl")
-  | ["policy", pid, ops, dump] =>
+  | ["policy", pid, opsStr, dump] =>
+    let ops := opsStr
     if ops.startsWith "@" then
       match pid.toNat?, shippedPolicy ops with
       | some pid, some p =>
@@ -155,7 +156,7 @@ def handleLine (st : State) (line : String) : State × String :=
     else
     match pid.toNat?, parseOps ops, unhexField dump with
     | some pid, some ops, some dump =>
-      let p := applyOps dfltHandler newPolicy ops
+      let p := applyOps dfltHandler (baseOf opsStr) ops
       let d := dumpPolicy p
       ({ st with policies := st.policies.insert pid p },
         if strBytes d == dump then "ok" else "DIFF " ++ d)
